@@ -227,7 +227,16 @@ func allocSource(a *ssa.Alloc) ssa.Value {
 		return nil
 	}
 	// an effectively-final local (`s := c.s` captured by a closure): the stored value is a
-	// parameter, a captured variable, or a field chain rooted at one
+	// parameter, a captured variable, or a field chain rooted at one.  Only object
+	// references are resolved this way; a scalar snapshot (`id := c.reqID`) is a value
+	// of its own that must not be confused with the live field.
+	switch src.(type) {
+	case *ssa.Parameter, *ssa.FreeVar:
+	default:
+		if _, isPtr := src.Type().Underlying().(*types.Pointer); !isPtr {
+			return nil
+		}
+	}
 	v := src
 	for i := 0; i < 10; i++ {
 		switch x := v.(type) {
